@@ -223,6 +223,9 @@ class BasicReadAssignmentLoader:
 
 def construct_models_in_parallel(sample, chr_id, dump_filename, args, read_groups):
     logger.info("Processing chromosome " + chr_id)
+    # isoform ids are unique within the annotation, so the set of already reported known isoforms only matters within a chromosome;
+    # it is class-level and would otherwise survive into the next chromosome / experiment handled by the same process
+    GraphBasedModelConstructor.detected_known_isoforms = set()
     construct_models = not args.no_model_construction
     current_chr_record = Fasta(args.reference, indexname=args.fai_file_name)[chr_id]
     multimapped_reads = defaultdict(list)
